@@ -1046,6 +1046,12 @@ func stepUpdate(o *Out, c *typCtx, up *merge.Updater, ig ignoreCfg, st *updState
 		degradedNow = st.conv.degraded()
 		if !ig.partial() {
 			judgeUpdate(o, op, c, ig, st.live, tv, newObj, pre, managers, mgr, ver)
+		} else if !degradedNow {
+			// configuration given for some versions only: the other managers' records, each under the
+			// configuration of its own version (the versions are labels here: one comparison serves all)
+			if cmp, err := st.live.Compare(tv); err == nil {
+				judgeOthers(o, op, ig, cmp, pre, managers, mgr)
+			}
 		}
 		st.prevLive = st.live
 		st.live, st.managers = newObj, managers
@@ -1133,6 +1139,10 @@ func stepApply(o *Out, c *typCtx, up *merge.Updater, ig ignoreCfg, st *updState,
 		}
 		if !ig.partial() {
 			judgeApply(o, op, c, ig, up, st, tv, result, newObj == nil, pre, managers, mgr, ver, plain, noop)
+		} else if !st.conv.degraded() {
+			if cmp, err := st.live.Compare(result); err == nil {
+				judgeOthers(o, op, ig, cmp, pre, managers, mgr)
+			}
 		}
 		objs := "_"
 		if newObj != nil {
@@ -1602,12 +1612,14 @@ func judgeApply(o *Out, op string, c *typCtx, ig ignoreCfg, up *merge.Updater, s
 // judgeOthers: every other manager's record only shrinks, by exactly the fields the operation changed,
 // created or removed; version and applied flag kept; no empty record remains (C05).
 func judgeOthers(o *Out, op string, ig ignoreCfg, cmp *typed.Comparison, pre, post fieldpath.ManagedFields, mgr string) {
-	changed := applyFilter(ig, cmp.Modified.Union(cmp.Added))
-	removed := applyFilter(ig, cmp.Removed)
 	for m, before := range pre {
 		if m == mgr {
 			continue
 		}
+		// what counts as changed for a record is decided by the configuration of the record's own version
+		igm := ig.at(before.APIVersion())
+		changed := applyFilter(igm, cmp.Modified.Union(cmp.Added))
+		removed := applyFilter(igm, cmp.Removed)
 		want := before.Set().Difference(before.Set().Intersection(changed)).Difference(removed)
 		after, ok := post[m]
 		if want.Empty() {
